@@ -283,16 +283,18 @@ def step (s : S) (line : String) : S × String :=
       else if op == "cqrna" || op == "xqrna" then
         match argBytes ws "x", argBytes ws "y" with
         | some x, some y =>
-          if x.size != y.size then (s, "einval") else
-          if x.size == 0 then (s, "emem") else      -- ESL_ALLOC(xycol, sizeof(int) * 0): Easel refuses zero-size allocations
+          let showP : PairResult → String
+            | .ok xs ys => "ok " ++ hexA xs ++ "," ++ hexA ys
+            | .einval => "einval"
+            | .emem => "emem"
           if op == "cqrna" then
-            let ((xs, ys), r') := qrnaOut gapText x y (outOf (ipn == 1 || ipn == 2) x.size) (outOf (ipn == 1 || ipn == 3) y.size) 0 x.size r
-            fin ("ok " ++ hexA xs ++ "," ++ hexA ys) r'
+            let (o, r') := qrnaCall gapText x y (outOf (ipn == 1 || ipn == 2) x.size) (outOf (ipn == 1 || ipn == 3) y.size) 0 r
+            fin (showP o) r'
           else
             let gap : UInt8 := if (arg? ws "abc").getD "dna" == "amino" then 20 else 4
-            let ((xs, ys), r') := qrnaOut (fun c => c == gap) (withSent x) (withSent y)
-              (outOf (ipn == 1 || ipn == 2) (x.size + 2)) (outOf (ipn == 1 || ipn == 3) (y.size + 2)) 1 x.size r
-            fin ("ok " ++ hexA xs ++ "," ++ hexA ys) r'
+            let (o, r') := qrnaCall (fun c => c == gap) (withSent x) (withSent y)
+              (outOf (ipn == 1 || ipn == 2) (x.size + 2)) (outOf (ipn == 1 || ipn == 3) (y.size + 2)) 1 r
+            fin (showP o) r'
         | _, _ => (s, "bad-op")
       else (s, "bad-op")
 
